@@ -598,3 +598,9 @@ fn file_key<R: Read>(rdr: R) -> Result<String> {
 fn make_lru_key_path(key: &str) -> PathBuf {
     Path::new(&key[0..1]).join(&key[1..2]).join(key)
 }
+
+/// Verification hook: the cache entry path of a toolchain id.
+#[cfg(sccache_verif)]
+pub fn verif_make_lru_key_path(key: &str) -> PathBuf {
+    make_lru_key_path(key)
+}
